@@ -131,6 +131,9 @@ def concretize(v: Val, model: z3.ModelRef):
     if isinstance(v, (VTuple, VPyList)):
         xs = [concretize(i, model) for i in v.items]
         return tuple(xs) if isinstance(v, VTuple) else xs
+    if isinstance(v, VItv):
+        lo_, hi_, isint = ev(ITV_SORT.lo(v.t)).as_long(), ev(ITV_SORT.hi(v.t)).as_long(), z3.is_true(ev(ITV_SORT.isint(v.t)))
+        return lo_ if isint else (lo_, hi_)
     if isinstance(v, VItem):
         return str(ev(v.t))
     if isinstance(v, VNative):
@@ -176,7 +179,7 @@ class Case:
 class Contract:
     def __init__(self, cid, prop, target, setup, post, pre=(), loops=None, inline=(), native=None,
                  samples=None, generator=None, specs=(), expect_min_obligations=1, timeout_s=10,
-                 notes=(), exits=None, frame=None, max_paths=2000, known_regions=None, splits=(), lemma=False, opaque=(), use_lemmas=()):
+                 notes=(), exits=None, frame=None, max_paths=2000, known_regions=None, splits=(), lemma=False, opaque=(), use_lemmas=(), mem_hints=()):
         self.id = cid
         self.prop = prop
         self.target = target          # () -> live function
@@ -197,6 +200,7 @@ class Contract:
         self.lemma = lemma
         self.opaque = set(opaque)        # spec functions kept uninterpreted (hidden definition)
         self.use_lemmas = list(use_lemmas)   # instantiated lemma statements assumed (each proved elsewhere)
+        self.mem_hints = list(mem_hints)     # index expressions offered as membership witnesses
 
 
 def drop_result_disjuncts(expr: str) -> str:
@@ -326,6 +330,8 @@ def run_contract(contract: Contract, tier='quick', seed=0, known=None):
     spec_env, spec_globs = _spec_env(contract)
     ex = I.Executor(loops=contract.loops, inline=contract.inline, max_paths=contract.max_paths)
     ex.loop_ordinals = I.number_loops(ext.node)
+    ex.spec_globs = dict(spec_globs)
+    ex.mem_hints = list(contract.mem_hints)
     ex.inlined_functions = set()
 
     def thunk(ex: I.Executor):
@@ -355,6 +361,7 @@ def run_contract(contract: Contract, tier='quick', seed=0, known=None):
                                contract.generator)
         fenv_names = env
         ex.path.spec_env = env
+        ex.hint_env = env
         try:
             ex.globs_stack.append(ext.globals)
             try:
@@ -549,6 +556,23 @@ def confirm_loop(s: z3.Solver, S: Sym, p, contract: Contract, label: str, attemp
             first = (inputs, confirmed, nat, model)
         if confirmed:
             return inputs, True, nat, model
+    # no counter-model replays (e.g. the failed obligation is about an intermediate loop state):
+    # search the contract's sample inputs for a concrete input that violates a postcondition
+    if contract.native is not None and contract.samples is not None:
+        import itertools
+        rng = random.Random(12345)
+        labels = [l for l, _ in contract.post]
+        for inputs in itertools.islice(contract.samples(rng), 3000):
+            for lab in ([label] if label in labels else labels):
+                try:
+                    extra = {n: v.conc for n, v in p.names.items()
+                             if n not in S.inputs and isinstance(v, Val) and not isinstance(v, VFunc)
+                             and v.conc is not NOTCONC}
+                    holds, nat = native_post(contract, inputs, lab, extra)
+                except Exception:
+                    continue
+                if holds is False:
+                    return inputs, True, nat, f'(found by searching the sample inputs; violated postcondition: {lab})'
     return first if first is not None else (None, None, None, None)
 
 
@@ -631,6 +655,15 @@ def to_term_assignment(v: Val, value):
         return [(v.nan, c.nan), (v.inf, c.inf), (v.val, c.val), (v.neg, c.neg)]
     if isinstance(v, VStr):
         return [(v.t, z3.StringVal(value))]
+    if isinstance(v, VSeq):
+        items = [v.kind.unwrap(lift(x)) for x in value]
+        default = items[0] if items else v.kind.unwrap(lift(0)) if v.kind.name != 'item' else None
+        if default is None:
+            raise OutOfSubset('cannot bind a sequence of opaque items')
+        arr = z3.K(z3.IntSort(), default)
+        for k, it in enumerate(items):
+            arr = z3.Store(arr, k, it)
+        return [(v.len, z3.IntVal(len(items))), (v.arr, arr)]
     raise OutOfSubset(f'cannot bind {v!r}')
 
 
@@ -729,6 +762,8 @@ def encoder_validation(contract: Contract, paths, S: Sym, seed: int, n: int):
                     break
         if bind_error:
             disagreements.append({'inputs': {k: repr(v) for k, v in inputs.items()}, 'why': bind_error})
+            if len(disagreements) > 5:
+                break
             continue
         if not candidates:
             outside_pre += 1      # the sample violates the precondition: nothing to compare
@@ -745,6 +780,16 @@ def encoder_validation(contract: Contract, paths, S: Sym, seed: int, n: int):
                     (oc[1].code is None or native_code(e) == oc[1].code)
             else:
                 agree = values_agree(subst_val(oc[1], sub), nat[1])
+            if agree and len(nat) > 2 and not getattr(hit, 'havocked', False):
+                # mutated arguments: the symbolic final state must equal the native one
+                for name, nval in nat[2].items():
+                    sv = hit.names.get(name)
+                    if isinstance(sv, VSeq) and not any(sv is w for w in (S.inputs.get(name),)) or \
+                            isinstance(sv, VSeq) and name in S.inputs:
+                        a2 = values_agree(subst_val(sv, sub), list(nval))
+                        if a2 is not True:
+                            agree = a2
+                            break
             verdicts.append(agree)
         if any(v is True for v in verdicts):
             compared += 1
@@ -783,6 +828,9 @@ def native_post(contract: Contract, inputs: dict, label: str, extra: dict | None
         env[f.__name__] = f
     env.update(extra or {})
     env.update(inputs)
+    if len(nat) > 2:
+        env.update(nat[2])        # post-state of mutated arguments / ghost names (e.g. L, old)
+        nat = nat[:2]
     if nat[0] == 'return':
         env.update(returned=True, result=nat[1], raised_code=None, raised_cls=None, raised_name=None)
     else:
